@@ -82,6 +82,8 @@ def _put_sites(gp: CFG, scope: Scope):
 
 def c16(ctx: Ctx) -> None:
     p = ctx.program
+    from .common import rule_unbound
+    rule_unbound(ctx, 'C16-U1', [p.func(A, 'to_async_iter'), p.func(A, 'to_sync_iter')], 'the iterator bridges')
     ctx.trusted += ['asyncio.Queue / queue.Queue are FIFO', 'ThreadPoolExecutor.__exit__ joins its workers',
                     'call_soon_threadsafe preserves order']
     ctx.rule('C16-TA1', 'every exit of a producer (normal, exception) passes put(<sentinel>); no element is put after it', 2)
@@ -367,6 +369,8 @@ def c16(ctx: Ctx) -> None:
 
 def c17(ctx: Ctx) -> None:
     p = ctx.program
+    from .common import rule_unbound
+    rule_unbound(ctx, 'C17-U1', [p.func(A, n_) for n_ in ('ensure_aw', 'loop_in_thread', '_get_loop_lock', 'run_aw_threadsafe')], 'the cross-loop helpers')
     ctx.trusted += ['run_coroutine_threadsafe / wrap_future transport result and exception unchanged',
                     'loop.run_until_complete returns/raises what the awaitable does']
     ctx.rule('C17-R1', 'three-way dispatch of ensure_aw (truth table over same / running / closed)', 4)
@@ -812,6 +816,8 @@ def _affine_paths(f: Scope, program):
 
 def c18(ctx: Ctx) -> None:
     p = ctx.program
+    from .common import rule_unbound
+    rule_unbound(ctx, 'C18-U1', [p.func(IT, 'split'), p.func(IT, 'exhaust')], 'split / exhaust')
     ctx.trusted += ['itertools.tee / compress / map semantics']
     ctx.rule('C18-R1', 'every iterator value is consumed at most once on every path (affine use)', 2)
     ctx.rule('C18-R2', 'a callable condition is applied by exactly one map over one tee branch of the source', 1)
@@ -933,6 +939,8 @@ def dangerous_hits(tree: ast.AST, aliases: Dict[str, str]) -> List[Tuple[int, st
 
 def c19(ctx: Ctx) -> None:
     p = ctx.program
+    from .common import rule_unbound
+    rule_unbound(ctx, 'C19-U1', [p.func(PA, 'parse_to_dict')], 'parse_to_dict')
     u = p.unit(PA)
     f = p.func(PA, 'parse_to_dict')
     ctx.trusted += ['ast.literal_eval constructs literals only', 'str.split semantics']
@@ -1329,6 +1337,8 @@ def c19(ctx: Ctx) -> None:
 
 def c20(ctx: Ctx) -> None:
     p = ctx.program
+    from .common import rule_unbound
+    rule_unbound(ctx, 'C20-U1', [p.func(A, 'gather_excs'), p.func(A, 'raise_first_exc')], 'gather_excs / raise_first_exc')
     ctx.trusted += ['asyncio.gather(return_exceptions=True) waits for all and keeps input order']
     ctx.rule('C20-R1', 'all awaitables are passed, star-unpacked and unfiltered, to asyncio.gather(..., return_exceptions=True)', 1)
     ctx.rule('C20-R2', 'the loop iterates the awaited gather result directly (input order)', 1)
